@@ -149,8 +149,9 @@ def run(c):
         ops = [mk_op(n, p, w) for n, p, w in c["ops"]]
         wires = sorted({w for _, _, ws in c["ops"] for w in ws})
         tape = qp.tape.QuantumScript(ops, [qp.state()])
-        ctm._CLIFFORD_T_CACHE = None
-        ctm._map_wires.cache_clear()
+        if not c.get("keep_cache"):          # by default every case starts from an empty module-level cache
+            ctm._CLIFFORD_T_CACHE = None
+            ctm._map_wires.cache_clear()
         del REC[:]
         (new,), _ = qp.clifford_t_decomposition(tape, epsilon=c["eps"], method=c["method"], **c.get("kw", {}))
         u = qp.matrix(tape, wire_order=wires)
